@@ -157,7 +157,10 @@ class Frame(object):
             self.fch1 = unit_utils.cast_value(self.fch1,
                                               u.MHz).to(u.Hz).value
             
-            self.t_start = Time(self.waterfall.header['tstart'], format='mjd').unix
+            # A Waterfall opened with a time selection starts with its first selected
+            # integration, later than the file does
+            tstart = self.waterfall.container.populate_timestamps(update_header=True)
+            self.t_start = Time(tstart, format='mjd').unix
             self.source_name = self.waterfall.header['source_name']
 
             # When multiple Stokes parameters are supported, this will have to
@@ -1074,6 +1077,10 @@ class Frame(object):
             header_attr['foff'] = self.df * -1e-6
         self.waterfall.header.update(header_attr)
         self.waterfall.file_header.update(header_attr)
+        # 'tstart' is now this frame's own start: a time selection of the Waterfall
+        # must not be added to it a second time when the file is written
+        self.waterfall.container.t_start = 0
+        self.waterfall.container.t_stop = self.tchans
         
         if filename is not None:
             self.waterfall.container.filename = str(pathlib.Path(filename).resolve())
